@@ -58,6 +58,13 @@ def main(tier, replay):
     for n, p in core.items():
         P[n] = p
         canon[n] = p.canon()
+    # struct tags with other keys before the parquet key
+    mt = progs.Program('multitag', [progs.leaf('Id', 'int64', tag='id'), progs.leaf('Name', 'string', 'opt', tag='full_name'),
+                                    progs.group('Home', [progs.leaf('Street', 'string', tag='street_name'), progs.leaf('Zip', 'int32', 'opt', tag='zip')], 'opt', tag='home'),
+                                    progs.leaf('Tags', 'string', 'rep', tag='tags')])
+    mt.other_keys = True
+    P['multitag'] = mt
+    canon['multitag'] = mt.canon() + ' (json+db+parquet tags)'
     # bool-only struct: the smallest shape whose generated code must compile too
     P['boolonly'] = progs.Program('boolonly', [progs.leaf('X', 'bool', 'rep', tag='x')])
     canon['boolonly'] = '{[]bool}'
